@@ -98,6 +98,25 @@ def main(argv):
             if argv[3] in k:
                 print(fmt_fn(f.raw)); print()
         return 0
+    if len(argv) >= 2 and argv[1] == "scan-all":
+        # tooling mode (mutation sweeps, corpus scans): load the default configuration once and run every property's
+        # rules on it; prints one JSON object {pid: [keys of obligations that are not discharged]}. No evidence is written.
+        pids = argv[2:] or sorted(f[:-3] for f in os.listdir(os.path.join(HERE, "props")) if f[0] == "C" and f.endswith(".py"))
+        out = {}
+        try:
+            prog = load_program("default", keep_target=True)
+        except SystemExit as e:
+            print(json.dumps({"error": str(e)})); return 2
+        known, _ = load_known()
+        for pid in pids:
+            mod = importlib.import_module("props." + pid)
+            ctx = Ctx(pid, prog, "default", "quick")
+            try:
+                mod.check(ctx)
+            except Exception as e:
+                out[pid] = ["%s|INTERNAL-ERROR|%s" % (pid, type(e).__name__)]; continue
+            out[pid] = sorted(set(o.key for o in ctx.obs if o.status != "discharged" and o.key not in known))
+        print(json.dumps(out)); return 0
     if len(argv) >= 2 and argv[1] == "gen-reference":
         # freeze the function ids of the current tree (all feature configurations) as the reference for inline.normalise
         os.environ["VERIF_NO_INLINE"] = "1"
